@@ -5,6 +5,11 @@
 #ifndef CUT_CONFIG
 #define CUT_CONFIG "unknown"
 #endif
+volatile int64_t g_cut_sink;
+// library calls made from a static initialiser of a translation unit linked before fixed_math.cc
+static int64_t probe_now(int64_t i) { switch (i & 7) { case 0: return cos_angle_aprox(0).v; case 1: return cos_angle_aprox(60).v; case 2: return sin_angle_aprox(90).v; case 3: return sin_angle_aprox(30).v; case 4: return sqrt_aprox(as_fixed(4 << 16)).v; case 5: return atan_index_aprox(as_fixed(65536)).v; case 6: return cos_angle_aprox(-45).v; default: return tan_tab(32).v; } }
+struct InitProbe { int64_t v[8]; InitProbe() { for (int i = 0; i < 8; ++i) v[i] = probe_now(i); } };
+static InitProbe g_probe;
 #define CE 0
 #define CESQ 1
 #define RT 2
